@@ -134,6 +134,7 @@ func genDispatch(c *ctx) string {
 	b.WriteString("def ptrValueDistinct : Bool := " + ptrValueForm(c) + "\n")
 	b.WriteString("def unionAtMember : Bool := " + unionAtMemberForm(c) + "\n")
 	b.WriteString("def impliedSchemaUnvalidated : Bool := " + impliedSchemaForm(c) + "\n")
+	b.WriteString("def dupDirectiveInlineAccepted : Bool := " + dupDirectiveForm(c) + "\n")
 	b.WriteString("def reflectOptionalRefused : Bool := " + reflectOptionalForm(c) + "\n")
 	b.WriteString("def inputDefaultsRaw : Bool := " + inputValidateForm(c) + "\n")
 	b.WriteString("def listNotCoerced : Bool := " + lnc + "\n")
@@ -449,6 +450,24 @@ func impliedSchemaForm(c *ctx) string {
 		return "false"
 	}
 	return unknown("Root.validate body", c.pos(fd))
+}
+
+// dupDirectiveForm (D106): is a directive repeated on one type (`type T @m @m`) accepted when written inline — the
+// same repetition through an extension is refused by Base.Extend — or reported by validateDirUses?
+func dupDirectiveForm(c *ctx) string {
+	fd := c.funcs["Root.validateDirUses"]
+	if fd == nil {
+		return unknown("validateDirUses", "root.go")
+	}
+	t := regexp.MustCompile(`(?m)//.*$`).ReplaceAllString(c.src(fd.Body), "")
+	t = regexp.MustCompile(`\s+`).ReplaceAllString(t, " ")
+	switch t {
+	case `{ for _, du := range t.Directives() { errs = append(errs, root.validateDirUse(t.Name(), Locate(t), du)...) } return }`:
+		return "true"
+	case `{ seen := map[string]bool{} for _, du := range t.Directives() { errs = append(errs, root.validateDirUse(t.Name(), Locate(t), du)...) if du.Directive != nil { name := du.Directive.Name() if seen[name] { errs = append(errs, fmt.Errorf("%w, directive @%s is repeated on %s at %d:%d", ErrValidation, name, t.Name(), du.line, du.col)) } seen[name] = true } } return }`:
+		return "false"
+	}
+	return unknown("validateDirUses body", c.pos(fd))
 }
 
 // reflectOptionalForm (D94): is an optional argument that is left out (or null) refused by checkReflectArgs
